@@ -186,12 +186,13 @@ class RowWise:
     k: None (returns one tensor) or number of outputs; tuple_kind: 'tuple' | 'list';
     trailing: per-output list of trailing dims (terms)"""
 
-    def __init__(self, name, k=None, tuple_kind='tuple', trailing=None, kinds=None):
+    def __init__(self, name, k=None, tuple_kind='tuple', trailing=None, kinds=None, recording=False):
         self.name = name
         self.k = k
         self.tuple_kind = tuple_kind
         self.trailing = trailing or [[]]
         self.kinds = kinds
+        self.recording = recording   # small-scope / concrete mode: exact-integer recording semantics
 
     def apply_rows(self, tensors):
         """tensors: list of Tn with equal leading dim (X then extra args).  Returns list over
@@ -199,9 +200,32 @@ class RowWise:
         X = tensors[0]
         outs = []
         n = 1 if self.k is None else self.k
+        rec = self.recording and all(O.is_conc(d) for tt in tensors for d in tt.shape[1:])
+        if self.recording and not rec:
+            raise Unsupported("recording semantics need concrete row shapes")
         for o in range(n):
             tr = self.trailing[o]
             name = self.name
+            if rec:
+                from .models import wgt, bias, P0, P1
+                import itertools as _it
+
+                def content(r, *t, _o=o):
+                    total = bias(_o)
+                    for k, tt in enumerate(tensors):
+                        dims = [O.conc_int(d) for d in tt.shape[1:]]
+                        for pos, idx in enumerate(_it.product(*[range(d) for d in dims])):
+                            v = tt.elem(r, *idx)
+                            if isinstance(v, bool) or (O.is_sym(v) and z3.is_bool(v)):
+                                v = ite(v, 1, 0)
+                            total = total + wgt(_o, k, pos) * v
+                    if len(t) >= 1:
+                        total = total + P0 * t[0]
+                    if len(t) >= 2:
+                        total = total + P1 * t[1]
+                    return total
+                outs.append(Tn.fresh([X.shape[0]] + list(tr), content, 'real', origin='fresh:' + self.name))
+                continue
 
             def content(r, *t, _o=o, _tr=tr):
                 zs, sorts = [], []
@@ -267,3 +291,58 @@ def _next_param(fr, it, *default):
     if default:
         return default[0]
     raise SymRaise('StopIteration')
+
+
+@L.lib('call:func')
+def _call_func(fr, f, model, X, *pos, args=None, **kw):
+    """assumed contract of a user-supplied `func(model, X, args=..., **kwargs)`: row-wise in X and in
+    every extra argument, rejects extra arguments whose leading dimension differs from X."""
+    ctx = fr.ctx
+    if pos:
+        raise Unsupported("func called with extra positional arguments")
+    rw = f.attrs['rowwise']
+    ts = [X] + list(args or ())
+    for t in ts:
+        if not isinstance(t, Tn):
+            raise Unsupported("func called with non-tensor")
+    for t in ts[1:]:
+        L.require_eq(ctx, X.shape[0], t.shape[0], 'ValueError')
+    ctx.events.append(('func_call', sorted(kw.keys())))
+    for k in f.attrs.get('forbid_kwargs', ()):
+        if k in kw:
+            raise SymRaise('TypeError')
+    return rw.package(rw.apply_rows(ts))
+
+
+@L.lib('inspect.signature')
+def _signature(fr, f):
+    import inspect
+    if isinstance(f, RepoFn):
+        names = list(inspect.signature(f.pyobj).parameters.keys())
+    elif isinstance(f, Opaque):
+        names = list(f.attrs.get('params', ['model', 'X', 'args', 'batch_size', 'device', 'verbose']))
+    else:
+        raise Unsupported("inspect.signature of %r" % (f,))
+    return Opaque('signature', 'signature', {'parameters': {n: None for n in names}})
+
+
+def shuffle_fn_result(f, X, n):
+    """assumed contract of a user-supplied shuffle function: some tensor of shape (batch, n,
+    alphabet, length) that is a function of its arguments.  Recording mode (small scope / concrete):
+    shuffle j of example b = X[b] rolled right by j+1 positions, as vf.models.RecordingShuffle."""
+    if f.attrs.get('recording'):
+        Lc = O.conc_int(X.shape[2])
+        snap = X.snapshot()
+        return Tn.fresh([X.shape[0], n, X.shape[1], X.shape[2]],
+                        lambda b, j, c, p: snap(b, c, O.mod(p - (j + 1), Lc)) if Lc > 0 else 0, 'int', origin='fresh:shuffle_fn')
+    g = z3.Function(f.name + '.val', *([z3.IntSort()] * 4), z3.IntSort())
+    return Tn.fresh([X.shape[0], n, X.shape[1], X.shape[2]], lambda b, j, c, p: g(*[O.to_z3(x) for x in (b, j, c, p)]),
+                    'int', origin='fresh:shuffle_fn')
+
+
+@L.lib('call:shuffle_fn')
+def _call_shuffle_fn(fr, f, X, start=None, end=None, n=None, random_state=None, **kw):
+    if not isinstance(X, Tn) or X.rank != 3:
+        raise Unsupported("shuffle_fn on a non rank-3 tensor")
+    fr.ctx.events.append(('shuffle_fn_call',))
+    return shuffle_fn_result(f, X, n)
